@@ -49,6 +49,8 @@ CHECKS = {
                  args=dict(quick=["-c10.stall=20s"], thorough=[])),
             dict(name="burst-race", run="TestC10Burst", race=True, checks=dict(quick=250, thorough=3000), shards=dict(quick=1, thorough=4),
                  args=dict(quick=["-c10.burstname=burst-race", "-c10.stall=20s"], thorough=["-c10.burstname=burst-race"])),
+            dict(name="pair", run="TestC10Pair", checks=dict(quick=60, thorough=500), shards=dict(quick=4, thorough=8),
+                 args=dict(quick=["-c10.pairrounds=20000", "-c10.stall=20s"], thorough=["-c10.pairrounds=40000"])),
         ],
     ),
     "C01": dict(
@@ -67,7 +69,9 @@ CHECKS = {
                dict(name="slow", run="TestC01Slow", checks=dict(quick=10, thorough=60), shards=dict(quick=2, thorough=8), timeout=dict(quick=600, thorough=1800)),
                dict(name="break", run="TestC01Break", checks=dict(quick=6, thorough=60), shards=dict(quick=4, thorough=8), timeout=dict(quick=600, thorough=1800),
                     args=dict(quick=["-c01.maxfill=6000", "-c01.maxstorm=4"], thorough=["-c01.maxfill=12000", "-c01.maxstorm=8"])),
-               dict(name="resub", run="TestC01Resub", checks=dict(quick=8, thorough=80), shards=dict(quick=3, thorough=8), timeout=dict(quick=600, thorough=1800))],
+               dict(name="resub", run="TestC01Resub", checks=dict(quick=8, thorough=80), shards=dict(quick=3, thorough=8), timeout=dict(quick=600, thorough=1800)),
+               # real time: every case holds its streams idle for 35-45 s (about a minute per case whatever the machine) - thorough only
+               dict(name="quiet", run="TestC01Quiet", tiers=("thorough",), checks=dict(thorough=1), shards=dict(thorough=4), timeout=dict(thorough=1200))],
     ),
     "C12": dict(
         engine="ingestfuzz",
@@ -254,6 +258,15 @@ CHECKS = {
             dict(name="storm", run="TestC16Storm", checks=dict(quick=1500, thorough=20000), shards=dict(quick=1, thorough=8)),
             # real scheduler: calls (same done func from several goroutines, releases, requests) piled up in front of the Manager's lock, which a gated resolver Close keeps busy
             dict(name="convoy", run="TestC16Convoy", checks=dict(quick=600, thorough=8000), shards=dict(quick=1, thorough=4)),
+            # the address strings themselves (every part also draws its address spellings: mixed case, ports/brackets/schemes, spaces, unicode, long, empty): spellings that differ
+            # only in case requested in every order, stepwise in a bubble, under oracles that hold whether or not such spellings are one address
+            dict(name="spell", run="TestC16Spell", checks=dict(quick=3000, thorough=30000), shards=dict(quick=1, thorough=8)),
+            # real scheduler: requesters that ask again the moment they are told that their request failed, thousands of times per case; a request made after a failure was
+            # returned (program order / atomic stamp) is never answered with that failure or an older one
+            dict(name="retry", run="TestC16Retry", checks=dict(quick=30, thorough=60), shards=dict(quick=1, thorough=4)),
+            # dial errors whose Error() method parks (harness call-back reached wherever the Manager formats the error; glog verbosity 0-5 is generated): waves of requests, each
+            # launched the moment the previous wave has returned, more requests while a formatting call is parked
+            dict(name="parked", run="TestC16Parked", checks=dict(quick=600, thorough=8000), shards=dict(quick=1, thorough=4)),
         ],
     ),
     "C04": dict(
@@ -394,6 +407,7 @@ CHECKS = {
             dict(name="random", run="TestC20Random", checks=dict(quick=10000, thorough=50000), shards=dict(quick=1, thorough=16)),
             dict(name="shapes", run="TestC20Shapes", checks=dict(quick=1500, thorough=6000), shards=dict(quick=4, thorough=16)),
             dict(name="edges", run="TestC20Edges", checks=dict(quick=3000, thorough=30000), shards=dict(quick=2, thorough=8)),
+            dict(name="syncs", run="TestC20Syncs", checks=dict(quick=4000, thorough=30000), shards=dict(quick=2, thorough=8)),
         ],
     ),
     "C19": dict(
@@ -582,6 +596,10 @@ CHECKS = {
                dict(name="latency", run="TestC15Latency", checks=dict(quick=5000, thorough=50000), shards=dict(quick=1, thorough=8)),
                # the same bound with UpdateReset called off-schedule and late (Target.Reset calls it on every reconnect)
                dict(name="latency-irregular", run="TestC15LatencyIrregular", checks=dict(quick=8000, thorough=60000), shards=dict(quick=1, thorough=8)),
+               # operations on other targets run while an operation (refresh pass, Reset, update, lifecycle call) is inside a change-feed callback
+               dict(name="nested", run="TestC15Nested", checks=dict(quick=2500, thorough=30000), shards=dict(quick=1, thorough=8)),
+               # cache-level latency bound: only updates accepted in sync (after Sync, before the next Reset) may influence what a refresh exports
+               dict(name="cache-latency", run="TestC15CacheLatency", checks=dict(quick=3000, thorough=40000), shards=dict(quick=1, thorough=8)),
                dict(name="race", run="TestC15Race", rapid=False, race=True,
                     # several processes: some defects only show in a process's first round (first use of package-level state)
                     args=dict(quick=["-c15.rounds=60"], thorough=["-c15.rounds=1000"]), shards=dict(quick=3, thorough=8))],
